@@ -45,6 +45,27 @@ pub struct Case {
     /// out of the appender (the caller catches it); appends acknowledged afterwards are held to the same promise
     #[serde(default)]
     pub panicking_arg_at: Option<u8>,
+    /// before the single append of this index, a record is appended whose message argument, while being formatted,
+    /// logs a record of its own through ANOTHER file appender (different file) on the same thread: both must land
+    #[serde(default)]
+    pub nested_at: Option<u8>,
+    /// before the single append of this index, another file appender (different file) fails in the middle of
+    /// encoding a record: nothing of that may show up in this appender's file
+    #[serde(default)]
+    pub side_failure_at: Option<u8>,
+}
+
+struct NestingArg<'a> {
+    side: &'a FileAppender,
+    side_text: &'a str,
+    own: &'a str,
+}
+
+impl<'a> std::fmt::Display for NestingArg<'a> {
+    fn fmt(&self, f: &mut std::fmt::Formatter) -> std::fmt::Result {
+        append_msg(self.side, self.side_text).map_err(|_| std::fmt::Error)?;
+        f.write_str(self.own)
+    }
 }
 
 struct PanickingArg;
@@ -86,9 +107,9 @@ pub fn strategy() -> impl Strategy<Value = Case> {
         prop::option::weighted(0.5, phase),
         prop::collection::vec(len_strategy(), 0..=3),
         prop::bool::weighted(0.7),
-        (prop::bool::weighted(0.25), prop::option::weighted(0.25, 0u8..8)),
+        (prop::bool::weighted(0.25), prop::option::weighted(0.25, 0u8..8), prop::option::weighted(0.2, 0u8..8), prop::option::weighted(0.2, 0u8..8)),
     )
-        .prop_map(|(pre_kind, pre_len, append_mode, chunks, singles, phase, singles_after, terminated, (twin, panicking_arg_at))| Case { pre_kind, pre_len, append_mode, chunks, singles, phase, singles_after, terminated, twin: twin && append_mode, panicking_arg_at })
+        .prop_map(|(pre_kind, pre_len, append_mode, chunks, singles, phase, singles_after, terminated, (twin, panicking_arg_at, nested_at, side_failure_at))| Case { pre_kind, pre_len, append_mode, chunks, singles, phase, singles_after, terminated, twin: twin && append_mode, panicking_arg_at, nested_at, side_failure_at })
 }
 
 /// Multi-chunk encoder which can park *inside* the appender's critical section.
@@ -204,6 +225,8 @@ fn check_in(dir: &Path, case: &Case, obs: &mut Obs) -> CaseResult {
         Ok(())
     };
     let mut unwound = false;
+    let mut nested = false;
+    let mut side_failed = false;
     for (si, len) in case.singles.iter().enumerate() {
         if case.panicking_arg_at.map(|k| k as usize % case.singles.len()) == Some(si) {
             let r = catch(|| app.append(&log::Record::builder().args(format_args!("{}", PanickingArg)).level(log::Level::Info).target("t").build()));
@@ -211,6 +234,40 @@ fn check_in(dir: &Path, case: &Case, obs: &mut Obs) -> CaseResult {
             let got = std::fs::read(&path).unwrap_or_default();
             ensure!(got == expected, "C04:content", "an append that unwound before producing a byte changed the file: {} bytes, expected {}", got.len(), expected.len());
             unwound = true;
+        }
+        if case.side_failure_at.map(|k| k as usize % case.singles.len()) == Some(si) {
+            let side_path = dir.join("sub/side-failing.log");
+            let side = FileAppender::builder()
+                .encoder(Box::new(FailingEncoder { fail: vec![Some(7)], calls: AtomicUsize::new(0) }))
+                .build(&side_path)
+                .map_err(|e| Failure { sig: "C04:build".into(), msg: e.to_string() })?;
+            let r = catch(|| append_msg(&side, "<<fragment of a record of another appender>>"));
+            ensure!(matches!(r, Ok(Err(_))), "C04:harness", "the failing encoder of the other appender did not fail: {:?}", r.map(|x| x.map_err(|e| e.to_string())));
+            drop(side);
+            side_failed = true;
+        }
+        if case.nested_at.map(|k| k as usize % case.singles.len()) == Some(si) {
+            let side_path = dir.join("sub/side-nested.log");
+            let side = FileAppender::builder().encoder(make_encoder(&None)).build(&side_path).map_err(|e| Failure { sig: "C04:build".into(), msg: e.to_string() })?;
+            let side_text = rec_text(0x5151, seq, 12);
+            let own = rec_text(0, seq, 9);
+            seq += 1;
+            let r = catch(|| app.append(&log::Record::builder().args(format_args!("{}", NestingArg { side: &side, side_text: &side_text, own: &own })).level(log::Level::Info).target("t").build()));
+            match r {
+                Err(p) => return fail("C04:panic", format!("an append whose argument logs through another file appender panicked: {}", p)),
+                Ok(Err(e)) => return fail("C04:append-error", format!("an append whose argument logs through another file appender failed: {}", e)),
+                Ok(Ok(())) => {}
+            }
+            expected.extend_from_slice(own.as_bytes());
+            let got = std::fs::read(&path).unwrap_or_default();
+            ensure!(got == expected, if got.len() < expected.len() { "C04:not-visible" } else { "C04:content" }, "after an append whose argument logged through another appender the file holds {} bytes, expected {}", got.len(), expected.len());
+            let got_side = std::fs::read(&side_path).unwrap_or_default();
+            ensure!(
+                got_side == side_text.as_bytes(),
+                if got_side.len() < side_text.len() { "C04:not-visible" } else { "C04:content" },
+                "the record appended (successfully) through the other file appender while this one was formatting is not in its file: {} bytes, expected {}", got_side.len(), side_text.len()
+            );
+            nested = true;
         }
         big |= record_size(*len) > 1024;
         single(*len, &mut seq, &mut expected, obs)?;
@@ -341,6 +398,8 @@ fn check_in(dir: &Path, case: &Case, obs: &mut Obs) -> CaseResult {
     obs.class_if(!case.terminated, "records-without-trailing-newline");
     obs.class_if(case.twin, "two-append-mode-appenders-on-one-path");
     obs.class_if(unwound, "append-unwound-by-panicking-argument-earlier");
+    obs.class_if(nested, "argument-logs-through-another-file-appender");
+    obs.class_if(side_failed, "another-appender-failed-mid-record-earlier");
     Ok(())
 }
 
